@@ -22,11 +22,34 @@ def decode (served : List ServedKey) : List JWK := (served.filter (·.known)).ma
 
 /-- how a download ends -/
 inductive EndKind
-  | ok          -- 200 with a JSON document: the key set served at that instant
-  | http5xx     -- error status
-  | badJson     -- 200 with a body that is not a JWKS document
+  | ok          -- 200 with a JWKS document: the key set served at that instant
+  | http5xx     -- a status other than 200 (whatever the body is)
+  | badJson     -- 200 with a body that is not one well-formed JSON document of the JWKS shape
   | cancelled   -- the request's context was cancelled before an answer arrived
   deriving DecidableEq, Repr, Inhabited
+
+/-- What the endpoint answered, as far as the property cares. The harness fills this in with the REAL `encoding/json`
+    (`json.Valid` on the whole body; a reference decode of the document / of the first JSON value of the body into
+    `struct{ Keys []json.RawMessage }` and of each entry with go-jose), never with the code under test. -/
+structure Answer where
+  status200 : Bool := true
+  wellFormed : Bool := true                  -- the WHOLE body is exactly one well-formed JSON document
+  whole : Option (List ServedKey) := none    -- well-formed and of the JWKS shape: the entries of the document
+  first : Option (List ServedKey) := none    -- the body BEGINS with a complete JSON value of the JWKS shape: that value's
+                                             -- entries (for a well-formed body this is `whole`; for "key set + trailing bytes" it is not)
+  deriving DecidableEq, Repr, Inhabited
+
+/-- the key set the endpoint served with this answer, if it served one: status 200 and the whole body a JWKS document -/
+def Answer.served (a : Answer) : Option (List JWK) :=
+  if a.status200 && a.wellFormed then a.whole.map decode else none
+
+/-- how a download with this answer (none: aborted by its context) ended, and the key set it delivered -/
+def endOf : Option Answer → EndKind × List JWK
+  | none => (.cancelled, [])
+  | some a =>
+    match a.served with
+    | some ks => (.ok, ks)
+    | none => (if a.status200 then .badJson else .http5xx, [])
 
 /-- what a call returns -/
 inductive Outcome
@@ -51,7 +74,7 @@ inductive Obs
   | cancel (c : Cid)                      -- the context of call `c` is cancelled
   | rotate (ks : List ServedKey)          -- the endpoint serves `ks` from now on
   | fetchBegin (f : Fid) (owner : Cid)    -- download `f` is sent, on behalf of call `owner`
-  | fetchEnd (f : Fid) (k : EndKind)      -- download `f` ends; `ok` = the document served at this instant
+  | fetchEnd (f : Fid) (a : Option Answer) -- download `f` ends with this answer of the endpoint (none: aborted by its context)
   | announce (f : Fid)                    -- the result of `f` is handed to the calls waiting for it (`inflight.done`)
   | retire (f : Fid)                      -- `f` is over: cache updated if it succeeded, no call can join it any more
   | point (p : Party) (name : String)     -- another schedule point was reached (no meaning for the property)
